@@ -316,7 +316,34 @@ def rule_rerun_starts_clean(ctx):
     shared.check_reset_for_rerun(ctx, "what the previous run amended, registered or created survives into the next run: the step keeps inputs, outputs, globs or products that its script no longer asks for, which a build from scratch never has")
 
 
+def rule_recreated_node_starts_clean(ctx):
+    """R-C01-12: a node that Trellis.create reuses starts from the new declaration.
+
+    Reusing the row of a detached node (partial recycle) keeps its id and nothing else: its input edges are cut, its
+    products are cut loose (R-C09-3), and the row is initialised and validated from the new arguments on every path.
+    """
+    fi = ctx.prog.func("trellis.Trellis.create")
+    n_ret = 0
+    for tr, st in flow.paths_of(fi):
+        if st != "return":
+            continue
+        n_ret += 1
+        calls = [e[1] for e in tr if e[0] == "call"]
+        tests = [(e[1], e[2]) for e in tr if e[0] == "test"]
+        reused = ("node is not None", True) in tests
+        ok_init = "node.initialize_row" in calls and "node.validate_row" in calls and calls.index("node.initialize_row") < calls.index("node.validate_row")
+        ok_cut = (not reused) or "node.del_all_sources" in calls
+        if not (ok_init and ok_cut):
+            ctx.bad(fi.fq, "every path initialises and validates the row; a reused node loses its old input edges first", f"path (reused={reused}): initialise+validate={ok_init}, inputs cut={ok_cut}: a re-created step keeps the inputs (or the row) of its previous definition, which a build from scratch never has", where=ctx.where_of(fi))
+            return
+    ctx.check(n_ret >= 3, fi.fq, "every path initialises and validates the row; a reused node loses its old input edges first", f"{n_ret} returning paths", f"{n_ret} paths")
+    da = ctx.prog.func("trellis.Node.del_all_sources")
+    dels = [s_ for s_ in ctx.sql.stmts_in(da.fq) if s_.kind == "DELETE" and ("DELETE", "dependency", None, None) in s_.writes and "sink = ?" in re.sub(r"\s+", " ", s_.text).replace(" . ", ".")]
+    ctx.check(len(dels) == 1, da.fq, "del_all_sources deletes every edge into the node", f"{len(dels)} matching DELETE", "DELETE FROM dependency WHERE sink = ?")
+
+
 RULES = [
+    Rule("R-C01-12", "a reused node starts from the new declaration", rule_recreated_node_starts_clean, min_instances=2),
     Rule("R-C01-11", "a reverted optional step forgets what its run amended (same end state as a build that never ran it)", C07.rule_revert_forgets_run, min_instances=5),
     Rule("R-C01-10", "a rerun starts from the declaration", rule_rerun_starts_clean, min_instances=10),
     Rule("R-C01-1", "staleness reaches memories (detached-inclusive selectors)", rule_staleness_reaches_memories, min_instances=8),
@@ -329,6 +356,9 @@ RULES = [
 ]
 
 MUTANTS = [
+    Mutant("recreated-node-keeps-inputs", "trellis.py", in_function("Trellis.create", replace_once("            node.del_all_sources()\n", "")), ("R-C01-12",)),
+    Mutant("recreated-row-not-initialised", "trellis.py", in_function("Trellis.create", replace_once("        node.initialize_row(**kwargs)\n", "")), ("R-C01-12",)),
+    Mutant("del-all-sources-deletes-nothing", "trellis.py", in_function("Node.del_all_sources", lambda t: t.replace('self.db.execute("DELETE FROM dependency WHERE sink = ?", (self.i,))', "pass", 1) if 'DELETE FROM dependency WHERE sink = ?' in t else None), ("R-C01-12",)),
     Mutant("reset-keeps-deferred-flag", "step.py", in_function("Step.reset_for_rerun", replace_once('        self.db.execute("UPDATE step SET deferred = FALSE WHERE node = ? AND deferred", (self.i,))\n', "")), ("R-C01-10",)),
     Mutant("rerun-keeps-dynamic-input-rows", "step.py", in_function("Step.reset_for_rerun", replace_once('        self.db.executemany("DELETE FROM dynamic_dep WHERE i = ?", ((row[0],) for row in rows))\\n'.replace("\\n", "\n"), ''.replace("\\n", "\n"))), ("R-C01-10",)),
     Mutant("rerun-keeps-dynamic-input-edges", "step.py", in_function("Step.reset_for_rerun", replace_once('        self.del_sources([self.graph.node_from_row(i, kind, label) for _, i, label, kind in rows])\\n'.replace("\\n", "\n"), ''.replace("\\n", "\n"))), ("R-C01-10",)),
